@@ -27,6 +27,7 @@ def gen_history(rng, n_ops: int) -> List[tuple]:
     ops: List[tuple] = [("dataset", rng.choice([0, 0, 1]))]
     n_streams = 1
     last_q: Optional[dict] = None
+    q_hist: List[dict] = []
     for _ in range(n_ops):
         r = rng.random()
         s = rng.randrange(n_streams) if rng.random() < 0.4 else max(0, n_streams - 1 - rng.choice([0, 0, 0, 1, 2]))
@@ -53,11 +54,14 @@ def gen_history(rng, n_ops: int) -> List[tuple]:
         elif r < 0.72:
             if last_q is not None and rng.random() < 0.3:
                 d = dict(last_q)  # repeat the same dictionary (equal values)
+            elif len(q_hist) >= 2 and rng.random() < 0.35:
+                d = dict(rng.choice(q_hist[:-1]))  # set keys back to values they had before the last change (A, B, A)
             else:
                 d = {}
                 for k in rng.sample(KEYS, rng.choice([1, 1, 2, 3])):
                     d[k] = rng.choice([1, 2, 3, 0, "fast", "slow", "x", ""])  # falsy values are values too
             last_q = d
+            q_hist.append(d)
             ops.append(("qmeta", s, d))
             n_streams += 1
         elif r < 0.8:
